@@ -30,6 +30,17 @@ fn one(kind: &str) -> String {
             s.sketch_slice(&items()).unwrap();
             format!("{:?}", s.get_hsketch())
         }
+        "smh2_u32" => {
+            // u32 sketch with a 64-bit hasher: at the pinned commit this panics (hash does not fit) - identically for
+            // every instance; the outcome (panic or sketch) must still be the same everywhere
+            let r = std::panic::catch_unwind(|| {
+                let bh = BuildHasherDefault::<FnvHasher>::default();
+                let mut s: SuperMinHash2<u32, u64, FnvHasher> = SuperMinHash2::new(16, bh);
+                s.sketch_slice(&items()).unwrap();
+                format!("{:?}", s.get_hsketch())
+            });
+            r.unwrap_or_else(|_| "PANIC".to_string())
+        }
         "setsketch" => {
             let mut s: SetSketcher<u16, u64, FnvHasher> = SetSketcher::new(SetSketchParams::new(1.001, 64, 20., 65534), bh);
             s.sketch_slice(&items()).unwrap();
@@ -85,8 +96,31 @@ fn one(kind: &str) -> String {
     }
 }
 
+/// other sketchers with OTHER parameters used earlier in the same process: a sketch must not depend on them
+fn history() {
+    let bh = BuildHasherDefault::<FnvHasher>::default();
+    let mut s: SetSketcher<u16, u64, FnvHasher> = SetSketcher::new(SetSketchParams::new(1.5, 32, 10., 1000), bh);
+    s.sketch_slice(&[1u64, 2, 3]).unwrap();
+    let mut s: SuperMinHash<f64, u64, FnvHasher> = SuperMinHash::new(7, BuildHasherDefault::<FnvHasher>::default());
+    s.sketch_slice(&[5u64, 6]).unwrap();
+    let mut s: SuperMinHash2<u64, u64, FnvHasher> = SuperMinHash2::new(5, BuildHasherDefault::<FnvHasher>::default());
+    s.sketch_slice(&[5u64, 6]).unwrap();
+    let mut s: ProbMinHash3<u64, FnvHasher> = ProbMinHash3::new(5, 0);
+    s.hash_item(77, &3.0);
+    let mut s: ProbMinHash2<u64, FnvHasher> = ProbMinHash2::new(5, 0);
+    s.hash_item(77, 3.0);
+    let mut s: OptDensMinHash<f64, u64, FnvHasher> = OptDensMinHash::new(9, BuildHasherDefault::<FnvHasher>::default());
+    s.sketch_slice(&[1u64]).unwrap();
+    let mut s: ProbOrdMinHash2<FnvHasher> = ProbOrdMinHash2::new(4, 1);
+    let _ = s.hash_set(&[9u64, 8, 7]);
+}
+
 fn main() {
+    std::panic::set_hook(Box::new(|_| {}));
     let kind = std::env::args().nth(1).unwrap();
+    if std::env::args().nth(2).is_some() {
+        history();
+    }
     // two instances in one thread, and two in concurrently running threads
     println!("{}", one(&kind));
     println!("{}", one(&kind));
